@@ -107,23 +107,24 @@ func (fr *Frame) fork() *Frame {
 
 type Exec struct {
 	pruneCalls, prunePruned int
+	vacChecks               map[string]int
 	pruneNs                 float64 // time spent in solver-based pruning (budget per function)
-	eng          *Engine
-	root         *ssa.Function
-	rootName     string
-	obls         []*Obligation
-	steps        int
-	maxSteps     int
-	paths        int
-	inlined      map[string]bool
-	usedCtr      map[string]bool // contracts used at call sites
-	intrUsed     map[string]bool
-	trivial      int // safety checks discharged by the simplifier
-	trivialNames map[string]string
-	clauseProps  map[string][]string
-	ordinals     map[ssa.Instruction]string
-	failed       []string // tool-limit / unsupported reasons
-	inputs       []NamedVal
+	eng                     *Engine
+	root                    *ssa.Function
+	rootName                string
+	obls                    []*Obligation
+	steps                   int
+	maxSteps                int
+	paths                   int
+	inlined                 map[string]bool
+	usedCtr                 map[string]bool // contracts used at call sites
+	intrUsed                map[string]bool
+	trivial                 int // safety checks discharged by the simplifier
+	trivialNames            map[string]string
+	clauseProps             map[string][]string
+	ordinals                map[ssa.Instruction]string
+	failed                  []string // tool-limit / unsupported reasons
+	inputs                  []NamedVal
 	// per-path loop iteration counters (symbolic forks at a header)
 	maxForks   int
 	maxPaths   int
